@@ -204,6 +204,21 @@ def c06_5(ctx, r):
                 ok = "Cluster.iter_hpc_job_ids" in render(ctx, run, g.iter) and not g.ifs and "create_from_id" in ctx.src(ud[1].elt) and ctx.src(ud[1].elt.args[-1]) == ctx.src(g.target)
     r.check(ok, "the round's queue starts with every persisted active id", key_of(run, "existing jobs"), s.loc,
             "the queue is not pre-filled with all persisted hpc_job_ids: batches still running are not counted and more than max-nodes are submitted", "each round re-derives the number of active batches")
+    # each carried-over batch is its own queue entry: JobQueue keys existing entries by .name, so the stand-in object built
+    # from a persisted id must be named by that id (a shared name collapses all active batches into one slot)
+    cfi = ctx.fn("AsyncHpcSubmitter.create_from_id", "C06.5")
+    ainit = ctx.fn("AsyncHpcSubmitter.__init__", "C06.5")
+    cs = [x for x in ctx.cg.sites_in(cfi) if (x.constructs or "").endswith("AsyncHpcSubmitter") or (isinstance(x.node.func, ast.Name) and x.node.func.id == "cls")]
+    if len(cs) != 1:
+        raise AnalysisError("C06.5", f"create_from_id: expected one constructor call, found {len(cs)}")
+    nm, jid = ctx.arg_for(cs[0], ainit, "name"), ctx.arg_for(cs[0], ainit, "job_id")
+    idp = [p for p in cfi.params if p not in ("cls", "self")][-1]
+    r.check(nm is not None and ctx.src(nm) == idp and jid is not None and ctx.src(jid) == idp, "a carried-over batch is named and identified by its persisted id", key_of(cfi, "stand-in name / id"), cs[0].loc,
+            f"create_from_id builds the stand-in with name={ctx.src(nm) if nm is not None else None}, job_id={ctx.src(jid) if jid is not None else None}: JobQueue keys existing entries by name, so several active batches "
+            "collapse into one entry - the others stop counting against max-nodes and drop out of the persisted active list (completion can then be forced while they run)",
+            "each round re-derives the number of active batches / at most max-nodes")
+    okq0 = any(isinstance(n, ast.For) and ctx.src(n.iter) == "existing_jobs" and any(isinstance(x, ast.Assign) and ctx.src(x.targets[0]) == f"self._outstanding_jobs[{ctx.src(n.target)}.name]" and ctx.src(x.value) == ctx.src(n.target) for x in n.body) for n in iter_own(qinit.node))
+    r.check(okq0, "existing entries are keyed by their own name", key_of(qinit, "existing jobs key"), qinit.loc(), "JobQueue.__init__ does not store each existing entry under its own name")
     # JobQueue.__init__ puts existing jobs into _outstanding_jobs
     okq = any(isinstance(n, ast.For) and ctx.src(n.iter) == "existing_jobs" and any(isinstance(x, ast.Assign) and ctx.src(x.targets[0]).startswith("self._outstanding_jobs[") for x in n.body) for n in iter_own(qinit.node))
     r.check(okq, "existing jobs are counted as outstanding", key_of(qinit, "existing jobs outstanding"), qinit.loc(), "JobQueue.__init__ does not store existing_jobs as outstanding")
@@ -222,7 +237,11 @@ def c06_5(ctx, r):
                 ud = ctx.rd(run).unique_def(n, a.id)
                 if ud and isinstance(ud[1], ast.AST):
                     txt = ctx.src(ud[1]).replace(" ", "")
-                    okp = "queue.outstanding_jobs" in txt and ".job_id" in txt and "if" not in txt
+                    qv = None
+                    qst = ctx.stmt_of(run, s.node)
+                    if isinstance(qst, ast.Assign) and isinstance(qst.targets[0], ast.Name):
+                        qv = qst.targets[0].id
+                    okp = qv is not None and f"{qv}.outstanding_jobs" in txt and ".job_id" in txt and "if" not in txt
         r.check(okp, "persisted hpc_job_ids = ids of all outstanding entries after the round", key_of(run, "persist outstanding ids"), s2.loc,
                 "the ids persisted for the next round are not exactly the queue's outstanding entries: active batches are forgotten (limit exceeded next round) or finished ones kept", "hpc_job_ids carried between rounds")
     ujs = ctx.fn("Cluster.update_job_status", "C06.5")
@@ -251,8 +270,12 @@ def c06_6(ctx, r):
                 if ud and isinstance(ud[1], ast.Call) and ctx.src(ud[1].func) == "min" and len(ud[1].args) == 2:
                     detail = ctx.src(ud[1])
                     names = [x.id for x in ud[1].args if isinstance(x, ast.Name)]
-                    wv = [v for v in names if v != "num_jobs"]
-                    if len(names) == 2 and wv:
+                    # role: one operand is the number of jobs (bound to len(<jobs parameter>)), the other the worker limit
+                    def _is_len_jobs(v):
+                        u2 = ctx.rd(fn).unique_def(ud[0], v)
+                        return u2 is not None and isinstance(u2[1], ast.Call) and ctx.src(u2[1].func) == "len" and u2[1].args and ctx.src(u2[1].args[0]) in fn.params
+                    wv = [v for v in names if not _is_len_jobs(v)]
+                    if len(names) == 2 and len(wv) == 1:
                         defs = ctx.rd(fn).reaching(ud[0], wv[0])
                         vals = sorted(ctx.src(ctx.rd(fn).defs_at[d].get(wv[0])) for d in defs if isinstance(ctx.rd(fn).defs_at[d].get(wv[0]), ast.AST))
                         detail += f" with {wv[0]} in {vals}"
@@ -318,8 +341,13 @@ def c06_7(ctx, r):
                 reads.add(n.attr)
     chk = ctx.fn("JobConfiguration.check_submission_groups", "C06.7")
     must = None
+    mname = None
+    for lp in [x for x in iter_own(chk.node) if isinstance(x, ast.For) and isinstance(x.iter, ast.Name)]:
+        pv = ctx.src(lp.target)
+        if any(isinstance(y, ast.Raise) for y in ast.walk(lp)) and sum(1 for y in ast.walk(lp) if isinstance(y, ast.Call) and ctx.src(y.func) == "getattr" and len(y.args) >= 2 and ctx.src(y.args[1]) == pv) >= 2:
+            mname = lp.iter.id
     for n in iter_own(chk.node):
-        if isinstance(n, ast.Assign) and isinstance(n.targets[0], ast.Name) and n.targets[0].id == "must_be_same" and isinstance(n.value, (ast.Tuple, ast.List)):
+        if isinstance(n, ast.Assign) and isinstance(n.targets[0], ast.Name) and mname and n.targets[0].id == mname and isinstance(n.value, (ast.Tuple, ast.List)):
             must = {e.value for e in n.value.elts if isinstance(e, ast.Constant)}
     if must is None:
         raise AnalysisError("C06.7", "must_be_same tuple not found in check_submission_groups")
@@ -330,7 +358,7 @@ def c06_7(ctx, r):
                 f"HpcSubmitter takes `{a}` from the first submission group for all groups, but check_submission_groups does not require it to be identical: another group's limit is silently ignored",
                 "at most max-nodes", must_be_same=sorted(must))
     # the comparison raises
-    loops = [n for n in iter_own(chk.node) if isinstance(n, ast.For) and isinstance(n.iter, ast.Name) and n.iter.id == "must_be_same"]
+    loops = [n for n in iter_own(chk.node) if isinstance(n, ast.For) and isinstance(n.iter, ast.Name) and n.iter.id == mname]
     ok = bool(loops) and any(isinstance(x, ast.Raise) for x in ast.walk(loops[0]))
     r.check(ok, "a differing must_be_same value raises InvalidConfiguration", key_of(chk, "must_be_same raises"), chk.loc(), "the must_be_same comparison no longer raises")
 
